@@ -164,11 +164,13 @@ theorem pcInv_decide (s : St) (q : Req) (hm : s.mem = s.disk) (hsh : s.shadow = 
               · rw [← hm, hhrs]; exact HRS.le_refl _
               · intro _; rw [← hm]; exact ⟨hhrs, hsg⟩
             · split
-              · simp only [PcInv]
-                refine ⟨fun _ => ⟨hm, hsh⟩, hmsg.symm, ?_, ?_⟩
-                · rw [← hm, hhrs]; exact HRS.le_refl _
-                · intro _; rw [← hm]; exact ⟨hhrs, hsg⟩
               · simp [PcInv, hm, hsh]
+              · split
+                · simp only [PcInv]
+                  refine ⟨fun _ => ⟨hm, hsh⟩, hmsg.symm, ?_, ?_⟩
+                  · rw [← hm, hhrs]; exact HRS.le_refl _
+                  · intro _; rw [← hm]; exact ⟨hhrs, hsg⟩
+                · simp [PcInv, hm, hsh]
           · simp [PcInv, hm, hsh]
         · rename_i hsame
           have hlt := hpass.2 (by simpa using hsame)
@@ -271,7 +273,9 @@ theorem inv_step (s : St) (e : Ev) (hi : Inv s) (hat : e.admissibleAt s) : Inv (
     simp only [step]
     split
     · exact ⟨hd, hrm, by simp [PcInv]⟩
+    · exact ⟨hd, hrm, by simp [PcInv]⟩
     · exact ⟨hd, hrm, hpc⟩
+  | reset => exact absurd hat (by simp [Ev.admissibleAt])
   | tick =>
     simp only [step, tick]
     split
@@ -451,6 +455,7 @@ theorem persist_before_release (evs : List Ev) (hat : Admissible St.init evs) (e
     · split at hlen <;> simp [restart] at hlen
     · simp [restart] at hlen
   | writeFails n => simp only [step] at hlen; split at hlen <;> simp at hlen
+  | reset => simp only [step] at hlen; split at hlen <;> simp at hlen
   | tick =>
     simp only [step] at hnew hlen ⊢
     rcases tick_out s with h | ⟨q', o, hq, hout, hdisk⟩
@@ -477,10 +482,29 @@ theorem failed_save_releases_nothing (s : St) (n : Nat) (q : Req) (sg : Sig) (hp
     (run s [.writeFails n, .tick]).pc = .idle ∧ (run s [.writeFails n, .tick]).poisoned = true := by
   simp [run, step, tick, hpc]
 
+
+/-- the same when the temp file cannot even be created (`OpenFile` error) -/
+theorem failed_open_releases_nothing (s : St) (n : Nat) (q : Req) (sg : Sig) (hpc : s.pc = .openTemp q sg) :
+    (run s [.writeFails n, .tick]).out = (q, .panicked) :: s.out ∧ (run s [.writeFails n, .tick]).disk = s.disk ∧
+    (run s [.writeFails n, .tick]).persisted = s.persisted ∧ (run s [.writeFails n, .tick]).poisoned = true := by
+  simp [run, step, tick, hpc]
+
+/-- **a stored record whose sign-bytes are not canonical JSON never signs.** At the recorded HRS, a request whose
+sign-bytes differ from stored sign-bytes that do not unmarshal (a damaged or hand-edited key file) ends in the panic
+of `check*OnlyDifferByTimestamp`: nothing is handed out, nothing is written. -/
+theorem unparsable_record_never_signs (m : Rec) (q : Req) (lp : Payload) (ls : Sig) (hsb : m.sb = some lp) (hsg : m.sig = some ls)
+    (hsame : m.hrs = q.hrs) (hstep : q.hrs.s ≠ -1) (hbad : lp.ok = false) (hne : q.p.bytes ≠ lp.bytes) :
+    decideCall m q = .release q .panicked := by
+  unfold decideCall
+  rw [if_neg hstep, ← hsame, checkRec_same]
+  simp [hsb, hsg, hne, hbad]
+
 /-- a write error can only occur where a write is in flight -/
-theorem writeFails_elsewhere_noop (s : St) (n : Nat) (h : ∀ q sg, s.pc ≠ .writeTemp q sg) : step s (.writeFails n) = s := by
+theorem writeFails_elsewhere_noop (s : St) (n : Nat) (h : ∀ q sg, s.pc ≠ .writeTemp q sg) (h' : ∀ q sg, s.pc ≠ .openTemp q sg) :
+    step s (.writeFails n) = s := by
   cases hq : s.pc with
   | writeTemp q sg => exact absurd hq (h q sg)
+  | openTemp q sg => exact absurd hq (h' q sg)
   | _ => simp [step, hq]
 
 /-! ### persisted records: released only after persisted, and the converse bound -/
@@ -573,6 +597,7 @@ theorem step_mono (s : St) (e : Ev) (hi : Inv s) (hat : e.admissibleAt s) :
           exact ⟨HRS.le_of_lt hpc.2.2.1, Or.inl rfl⟩
     · exact ⟨HRS.le_refl _, Or.inl rfl⟩
   | writeFails n => simp only [step]; split <;> exact ⟨HRS.le_refl _, Or.inl rfl⟩
+  | reset => exact absurd hat (by simp [Ev.admissibleAt])
   | tick =>
     simp only [step]
     rcases tick_out s with h | ⟨q, o, hq, hout, hdisk⟩
@@ -647,14 +672,18 @@ theorem decideCall_same (m : Rec) (q : Req) (hrec : RecOK m) (hsame : m.hrs = q.
       intro g ts post ho
       cases ho
       refine ⟨rfl, lp, rfl, ?_, Or.inl ⟨hb, ?_⟩⟩ <;> first | rfl | exact hb | exact hb.symm
-    · by_cases hc : q.p.core = lp.core
-      · refine ⟨_, by simp [hb, hc]; rfl, ?_⟩
+    · by_cases hok : lp.ok = false
+      · refine ⟨_, by simp [hb, hok]; rfl, ?_⟩
         intro g ts post ho
         cases ho
-        exact ⟨rfl, lp, rfl, rfl, Or.inr ⟨hb, hc, rfl⟩⟩
-      · refine ⟨_, by simp [hb, hc]; rfl, ?_⟩
-        intro g ts post ho
-        cases ho
+      · by_cases hc : q.p.core = lp.core
+        · refine ⟨_, by simp [hb, hc, hok]; rfl, ?_⟩
+          intro g ts post ho
+          cases ho
+          exact ⟨rfl, lp, rfl, rfl, Or.inr ⟨hb, hc, rfl⟩⟩
+        · refine ⟨_, by simp [hb, hc, hok]; rfl, ?_⟩
+          intro g ts post ho
+          cases ho
 
 /-- **same HRS, only the timestamp differs (or nothing differs): the stored signature is handed out, byte for
 byte, and no second signature is ever computed.** For a call at exactly the recorded HRS (any state reachable by
@@ -795,6 +824,37 @@ example : let evs := [.req (exA true)] ++ ticks 11 ++ [.req exC] ++ ticks 5 ++ [
     Admissible St.init evs ∧
     (run St.init evs).out = [(exC, .released ⟨[3]⟩ "t1" [3]), (exB true, .refused conflictCode), (exC, .panicked), (exA true, .released ⟨[1]⟩ "t1" [1])] ∧
     (run St.init evs).persisted = [recOf exC ⟨[3]⟩, recOf (exA true) ⟨[1]⟩] := by decide
+
+
+/-- histories in which an operator may run `unsafe_reset_priv_validator` (`FilePV.Reset`) at any idle moment -/
+def AdmissibleOrReset : St → List Ev → Prop
+  | _, [] => True
+  | s, e :: rest => (e = .reset ∨ e.admissibleAt s) ∧ AdmissibleOrReset (step s e) rest
+
+def C04_statement_with_operator_reset : Prop :=
+  ∀ (evs : List Ev), AdmissibleOrReset St.init evs → ∀ (l1 l2 : List (Req × Outcome)) (q1 q2 : Req) (g1 g2 : Sig) (ts1 ts2 : String) (p1 p2 : Bytes),
+    (run St.init evs).out = l1 ++ (q2, .released g2 ts2 p2) :: l2 → (q1, Outcome.released g1 ts1 p1) ∈ l2 →
+    q1.save = true → q2.save = true → q1.hrs = q2.hrs → g1 = g2
+
+instance decAdmissibleOrReset : (s : St) → (evs : List Ev) → Decidable (AdmissibleOrReset s evs)
+  | _, [] => isTrue trivial
+  | s, e :: rest =>
+    have := decAdmissibleOrReset (step s e) rest
+    by simp only [AdmissibleOrReset]; exact inferInstance
+
+/-- **`Reset` erases the protection** (it is what the CLI command `unsafe_reset_priv_validator` calls; no other caller):
+A signed at 5/0/2, reset, B signed at 5/0/2.  `Ev.reset` is therefore never admissible. -/
+theorem operator_reset_breaks_C04 : ¬ C04_statement_with_operator_reset := by
+  intro h
+  have := h ([.req (exA true)] ++ ticks 11 ++ [.reset, .req (exB true)] ++ ticks 11) (by decide)
+    [] [(exA true, .released ⟨[1]⟩ "t1" [1])] (exA true) (exB true) ⟨[1]⟩ ⟨[2]⟩ "t1" "t1" [1] [2] (by decide) (by simp) rfl rfl rfl
+  exact absurd this (by decide)
+
+/-- a damaged record at the recorded HRS: the different request panics, the next round is signed -/
+example : let bad : Rec := { hrs := ⟨5, 0, 2⟩, sb := some { bytes := [9], core := [0], ts := "-", ok := false }, sig := some ⟨[9]⟩ }
+    let s0 : St := { St.init with disk := bad, mem := bad, shadow := bad }
+    (run s0 ([.req (exA true)] ++ ticks 2 ++ [.req exC] ++ ticks 11)).out
+      = [(exC, .released ⟨[3]⟩ "t1" [3]), (exA true, .panicked)] := by decide
 
 /-- with the hypothesis it holds (this is `one_payload_per_hrs`) -/
 theorem C04_with_atomic_rename (evs : List Ev) (hat : Admissible St.init evs) (l1 l2 : List (Req × Outcome)) (q1 q2 : Req) (g1 g2 : Sig) (ts1 ts2 : String) (p1 p2 : Bytes)
